@@ -3,6 +3,9 @@
    check of every run.  The theorems below are what makes it a specification: they hold for ALL inputs.  Property
    theorems only. *)
 From TV Require Import Model.Outline Spec.Outline Proofs.Outline Proofs.OutlineBox.
+From TV Require Import Model.Composite Spec.Composite Proofs.Composite.
+From TV Require Import Model.Charstring Proofs.Charstring Proofs.CharstringBounds.
+From TV Require Import Model.GvarScalar Proofs.GvarScalar.
 Open Scope Z_scope.
 
 (* buildSegments, any number of contours, any coordinates: each contour is decoded independently of the previous ones, and
@@ -79,6 +82,137 @@ Theorem glyph_decode_total : forall src, nonneg src -> total (parse_glyph src).
 Proof. exact parse_glyph_total_lemma. Qed.
 Print Assumptions glyph_decode_total.
 
+(* ---------------------------------------------------------------------------------------------------------------- *)
+(* composite glyphs (Model/Composite.v: exact binary32 arithmetic on the raw glyf records)                              *)
+
+(* the component record parser terminates on every byte string (its fuel, the number of bytes, is never exhausted) and
+   never indexes out of range *)
+Theorem composite_parse_total : forall src, total (parse_composite src).
+Proof. exact parse_composite_total_lemma. Qed.
+Print Assumptions composite_parse_total.
+
+(* getPointsForGlyph on ANY set of glyf records (cyclic and self-referencing composites included): no panic, and the
+   23 levels of fuel of the model are never exhausted - the nesting limit of 20 stops every recursion *)
+Theorem glyf_points_total : forall e gid, recs_nonneg e -> total (glyf_all_points e gid).
+Proof. exact glyf_all_points_total_lemma. Qed.
+Print Assumptions glyf_points_total.
+
+(* the points of a composite glyph are assembled from its components' own decodings one level down, in component
+   order: skipped when the component yields fewer than 4 points (out of range / too deep), otherwise the image of the
+   component's points (phantoms removed) under its placement map; then the phantom points; at depth 0 everything is
+   shifted by minus the left phantom point *)
+Theorem composite_is_placed_components : forall e gid depth k raw h parts all,
+  lookup_rec (e_recs e) gid = Some raw -> gid < e_nglyf e -> depth <= 20 ->
+  parse_glyph_full raw = Ok (h, BComposite parts) ->
+  points_for_glyph (S k) e gid depth = Ok all ->
+  exists all' ph',
+    assembled (fun g => points_for_glyph k e g (depth + 1)) parts [] (phantoms_of e h gid) all' ph'
+    /\ all = top_shift depth (all' ++ ph').
+Proof. exact composite_points_lemma. Qed.
+Print Assumptions composite_is_placed_components.
+
+(* ... so the collected points are exactly the concatenation of the placed component point lists, each component being a
+   component record of the glyph, decoded by the recursive call *)
+Theorem assembled_is_concatenation : forall rc parts all ph all' ph',
+  assembled rc parts all ph all' ph' ->
+  exists contribs : list (cpart * list cpoint * (cpoint -> cpoint)),
+    all' = all ++ concat (map (fun t => map (snd t) (drop_last4 (snd (fst t)))) contribs)
+    /\ Forall (fun t => In (fst (fst t)) parts /\ rc (p_gid (fst (fst t))) = Ok (snd (fst t)) /\ 4 <= zlen (snd (fst t))) contribs.
+Proof. exact assembled_concat. Qed.
+Print Assumptions assembled_is_concatenation.
+
+(* placement maps move points but keep the on-curve and end-of-contour marks: the contour structure of a component is
+   the contour structure of its image *)
+Theorem placement_keeps_marks : forall p all comp T, placement p all comp T -> keeps_marks T.
+Proof. exact placement_marks. Qed.
+Print Assumptions placement_keeps_marks.
+
+(* a simple glyph contributes its decoded integer points *)
+Theorem simple_glyph_points : forall e gid depth k raw h end_pts pts all,
+  lookup_rec (e_recs e) gid = Some raw -> gid < e_nglyf e -> depth <= 20 ->
+  parse_glyph_full raw = Ok (h, BSimple end_pts pts) ->
+  points_for_glyph (S k) e gid depth = Ok all ->
+  all = top_shift depth (map fp_of_int_point (contour_points_from 0 end_pts pts) ++ phantoms_of e h gid).
+Proof. exact simple_points_lemma. Qed.
+Print Assumptions simple_glyph_points.
+
+(* outline level, float32 midpoints: after complete contours, the segments of further good contours do not depend on
+   what came before - the outline of a composite is the concatenation of the outlines of its placed components *)
+Theorem composite_outline_concat : forall a (cs : list (list cpt)),
+  complete a -> Forall (fun c => good_contour c = true) cs ->
+  build_segments_f (a ++ concat (map mark cs)) = build_segments_f a ++ build_segments_f (concat (map mark cs)).
+Proof. exact build_segments_f_concat_lemma. Qed.
+Print Assumptions composite_outline_concat.
+
+(* float32 extents: the corners enclose every point and are attained; width and height are the ROUNDED differences
+   (so XBearing + Width may differ from the largest x by one rounding) *)
+Theorem extents_f_enclose_attained : forall pts, pts <> [] ->
+  exists minx miny maxx maxy,
+    extents_from_points_f pts = (minx, maxy, f32_sub maxx minx, f32_sub miny maxy)
+    /\ (forall p, In p pts -> minx <= cp_x p <= maxx /\ miny <= cp_y p <= maxy)
+    /\ (exists p, In p pts /\ cp_x p = minx) /\ (exists p, In p pts /\ cp_x p = maxx)
+    /\ (exists p, In p pts /\ cp_y p = miny) /\ (exists p, In p pts /\ cp_y p = maxy).
+Proof. exact extents_f_lemma. Qed.
+Print Assumptions extents_f_enclose_attained.
+
+(* ---------------------------------------------------------------------------------------------------------------- *)
+(* CFF: the Type 2 charstring interpreter (Model/Charstring.v)                                                          *)
+
+(* for ALL byte strings and subroutine lists: the interpreter never indexes outside the argument stack, the call stack or
+   the instruction stream (the result is Ok, an error, or - with too little fuel - OutOfFuel; never a panic) *)
+Theorem charstring_no_panic : forall fuel cs lsubrs gsubrs, no_panic (load_glyph fuel cs lsubrs gsubrs).
+Proof. exact load_glyph_no_panic_lemma. Qed.
+Print Assumptions charstring_no_panic.
+
+(* in every state the run goes through, the argument stack holds at most 513 values and at most 10 subroutine calls are
+   pending *)
+Theorem charstring_stack_bounds : forall lsubrs gsubrs cs m r,
+  reaches lsubrs gsubrs (mkM cs [] []) rd_init m r ->
+  Z.of_nat (length (m_args m)) <= 513 /\ Z.of_nat (length (m_calls m)) <= 10.
+Proof. exact stack_bounds_lemma. Qed.
+Print Assumptions charstring_stack_bounds.
+
+(* the returned path: cut at its MoveTo segments, every contour except the last ends on the point it started from (the
+   segments before the first MoveTo start at the origin, as the code's firstPoint does) ... *)
+Theorem charstring_path_wellformed : forall fuel cs lsubrs gsubrs segs b,
+  load_glyph fuel cs lsubrs gsubrs = Ok (segs, b) -> exists f c, wf_rev (rev segs) = Some (f, c).
+Proof. exact load_glyph_path_lemma. Qed.
+Print Assumptions charstring_path_wellformed.
+
+(* ... and endchar closes the last one too *)
+Theorem endchar_closes_path : forall r, path_inv r -> all_closed (r_segs (close_path r)).
+Proof. exact close_path_closed. Qed.
+Print Assumptions endchar_closes_path.
+
+(* the path bounds returned with the segments enclose every point of every LineTo and CubeTo segment - end points, control
+   points and the closing lines added by the interpreter (MoveTo points that nothing is drawn from are not counted, as in
+   the code) *)
+Theorem charstring_bounds_enclose : forall fuel cs lsubrs gsubrs segs b,
+  load_glyph fuel cs lsubrs gsubrs = Ok (segs, b) -> forall p, In p (drawn_all segs) -> in_b b p.
+Proof. exact load_glyph_bounds_lemma. Qed.
+Print Assumptions charstring_bounds_enclose.
+
+(* ---------------------------------------------------------------------------------------------------------------- *)
+(* gvar: the scalar of a tuple variation (Model/GvarScalar.v)                                                           *)
+
+(* calculateScalar - with the single-active-axis cache newGvar builds for shared tuples - is the product over ALL axes of
+   the per-axis factors, for every coordinate vector, every shared-tuple list and every header whose peak tuple has one
+   entry per axis *)
+Theorem gvar_scalar_is_product : forall (coords : list Z) (shared : list (list Z)) (embedded : bool) (index : Z)
+    (peak0 start end_ : list Z) (hi : bool),
+  let peak := if embedded then peak0 else nth (Z.to_nat index) shared [] in
+  (embedded = false -> 0 <= index < Z.of_nat (length shared)) ->
+  length peak = length coords ->
+  scalar_go coords shared embedded index peak0 start end_ hi = scalar_full hi coords peak start end_.
+Proof. exact scalar_go_is_full. Qed.
+Print Assumptions gvar_scalar_is_product.
+
+(* ... and that product is 0 as soon as one axis factor is 0 (the coordinate lies outside the tuple's region on that axis) *)
+Theorem gvar_scalar_zero_factor : forall hi coords peak start end_ l acc,
+  In (Some 0) l -> l = map (term_at hi coords peak start end_) (seq 0 (length coords)) -> fold_left mul_term l acc = 0.
+Proof. intros hi coords peak start end_ l acc H _. exact (product_zero l acc H). Qed.
+Print Assumptions gvar_scalar_zero_factor.
+
 (* ---- non-vacuity ---- *)
 (* a contour starting with two off-curve points, and a second all-off-curve contour *)
 Example contours_example :
@@ -112,3 +246,66 @@ Example flags_example :
   parse_points [27; 2; 1; 5; 6; 7; 0; 1; 0; 2; 0; 3; 0; 4; 0; 9] [3]
   = Ok [(27, 5, 2); (27, 11, 5); (27, 18, 9); (1, 19, 18)].
 Proof. reflexivity. Qed.
+
+(* composite glyph 2 = glyph 1 (a triangle) moved by (10, 20), then glyph 1 scaled by 0.5 and moved by (-5, 0) *)
+Definition ex_env := mkEnv 3
+  [(1, [0;1; 0;0; 0;0; 0;100; 0;100;  0;2; 0;0; 1;1;1; 0;0; 0;100; 255;156; 0;0; 0;0; 0;100]);
+   (2, [255;255; 0;0; 0;0; 0;110; 0;120;  0;34; 0;1; 10;20;   0;11; 0;1; 255;251; 0;0; 32;0])]
+  (mkHmtx [(500,0);(500,0);(600,0)] []) hmtx_empty_tab 1000.
+Definition FI (x y : Z) : pt := (f32_of_int x, f32_of_int y).
+Example composite_example :
+  recs_nonneg ex_env
+  /\ glyf_outline_f ex_env 2 = Ok [MoveTo (FI 10 20); LineTo (FI 110 20); LineTo (FI 10 120); LineTo (FI 10 20);
+                                   MoveTo (FI (-5) 0); LineTo (FI 45 0); LineTo (FI (-5) 50); LineTo (FI (-5) 0)]
+  /\ (exists ps, parse_glyph_full [255;255; 0;0; 0;0; 0;110; 0;120;  0;34; 0;1; 10;20;   0;11; 0;1; 255;251; 0;0; 32;0]
+                 = Ok (mkHdr (-1) 0 0 110 120, BComposite ps) /\ length ps = 2%nat).
+Proof.
+  split; [|split].
+  - unfold recs_nonneg, ex_env. cbn. repeat constructor; lia.
+  - vm_compute. reflexivity.
+  - eexists. split; [vm_compute; reflexivity|reflexivity].
+Qed.
+
+(* a self-referencing composite is cut by the depth limit: levels 0..20 of the glyph each add the triangle found one level down, the one at level 21 is dropped: 20 copies *)
+Example composite_depth_example :
+  let e := mkEnv 3 [(1, [0;1; 0;0; 0;0; 0;100; 0;100;  0;2; 0;0; 1;1;1; 0;0; 0;100; 255;156; 0;0; 0;0; 0;100]);
+                    (2, [255;255; 0;0; 0;0; 0;0; 0;0;  0;34; 0;1; 1;0;   0;2; 0;2; 0;3])]
+                  hmtx_empty_tab hmtx_empty_tab 1000 in
+  match glyf_all_points e 2 with Ok all => zlen all = 20 * 3 + 4 | _ => False end.
+Proof. vm_compute. reflexivity. Qed.
+
+Example extents_f_example :
+  extents_from_points_f [mkCP (f32_of_int 3) (f32_of_int 4) true false; mkCP (f32_of_int (-1)) (f32_of_int 9) true true]
+  = (f32_of_int (-1), f32_of_int 9, f32_of_int 4, f32_of_int (-5)).
+Proof. vm_compute. reflexivity. Qed.
+
+(* 100 200 rmoveto 50 0 rlineto 0 50 rlineto endchar: the triangle is closed by the interpreter *)
+Example charstring_example :
+  load_glyph 100 [239; 247; 92; 21; 189; 139; 5; 139; 189; 5; 14] [] []
+  = Ok ([CMove (100 * FX, 200 * FX); CLine (150 * FX, 200 * FX); CLine (150 * FX, 250 * FX); CLine (100 * FX, 200 * FX)],
+        (100 * FX, 200 * FX, 150 * FX, 250 * FX))
+  /\ wf_rev (rev [CMove (100 * FX, 200 * FX); CLine (150 * FX, 200 * FX); CLine (150 * FX, 250 * FX); CLine (100 * FX, 200 * FX)])
+     = Some ((100 * FX, 200 * FX), (100 * FX, 200 * FX))
+  /\ wf_rev (rev [CMove (0, 0); CLine (5, 5); CMove (7, 7)]) = None.
+Proof. repeat split; vm_compute; reflexivity. Qed.
+
+(* a subroutine call (bias 107: operand -107 calls subroutine 0) and the 10-level limit on a self-calling subroutine *)
+Example charstring_subr_example :
+  load_glyph 100 [32; 10; 14] [[239; 239; 21; 11]] [] = Ok ([CMove (100 * FX, 100 * FX)], (0, 0, 0, 0))
+  /\ load_glyph 100 [32; 10; 14] [[32; 10]] [] = Err 3.
+Proof. split; vm_compute; reflexivity. Qed.
+
+Example charstring_bounds_example :
+  in_b (100 * FX, 200 * FX, 150 * FX, 250 * FX) (150 * FX, 250 * FX)
+  /\ drawn_all [CMove (100 * FX, 200 * FX); CLine (150 * FX, 200 * FX); CLine (150 * FX, 250 * FX)]
+     = [(150 * FX, 200 * FX); (150 * FX, 250 * FX)].
+Proof. split; [unfold in_b, FX; cbn; lia|reflexivity]. Qed.
+
+(* half way to a single-axis peak: 1/2; a shared tuple with three peaks (axes 0,1,2) while only axis 2 is moved: the
+   factor of axis 0 is 0, so the scalar is 0 - the cache must not treat that tuple as a one-axis tuple *)
+Example gvar_scalar_example :
+  scalar_go [8192; 0] [[16384; 0]] false 0 [] [] [] false = f32_half f32_one
+  /\ active_idx [16384; 0] = 0 /\ active_idx [16384; 16384; 16384; 0] = -1
+  /\ scalar_go [0; 0; 7000; 0] [[16384; 16384; 16384; 0]] false 0 [] [] [] false = 0
+  /\ In (Some 0) (map (term_at false [0; 0; 7000; 0] [16384; 16384; 16384; 0] [] []) (seq 0 4)).
+Proof. repeat split; try (vm_compute; reflexivity). left. vm_compute. reflexivity. Qed.
